@@ -207,6 +207,48 @@ def framing(ctx, chk):
 
 
 def tag_is_class_instr(b, tr, operand):
+    """The tag handed to the framing is Some(t) with t = CLASS * 256 + INSTR: the two associated constants, in
+    that order, read as one big-endian u16 (`BigEndian::decode::<Tag>(&[CLASS, INSTR])`, `u16::from_be_bytes`,
+    `[INSTR, CLASS]` little-endian) and nothing else mixed in.  Decided on the value's expression tree."""
+    from discharge import VEx
+    from expr import walk, strip_ref, show
+    vx = VEx(b, tr)
+    site = next((bb for bb, t_ in b.calls() if any(a is operand for a in t_["args"])), 0)
+    e = vx.operand(operand, site)
+    if not (e[0] == "agg" and e[1].endswith("Option::Some") and len(e[2]) == 1):
+        return False, "tag is not Some(..): %s" % show(e)[:60]
+    CLASS, INSTR = "const zvt_builder::ZvtCommand::CLASS", "const zvt_builder::ZvtCommand::INSTR"
+    readers = []
+    for x in walk(e[2][0]):
+        if x[0] == "call":
+            n = x[1]
+            ga = x[4] if len(x) > 4 else ()
+            be = (n == "zvt_builder::encoding::Encoding::decode" and tuple(ga[:2]) in (
+                ("zvt_builder::encoding::BigEndian", "zvt_builder::Tag"), ("zvt_builder::encoding::BigEndian", "u16"))) or \
+                n == "core::num::<impl u16>::from_be_bytes"
+            le = n == "core::num::<impl u16>::from_le_bytes" or (n == "zvt_builder::encoding::Encoding::decode" and tuple(ga[:2]) == (
+                "zvt_builder::encoding::Default", "u16"))
+            if be or le:
+                arg = strip_ref(x[2][0]) if x[2] else ("?",)
+                while arg[0] == "cast":
+                    arg = strip_ref(arg[1])
+                names = [a[1] if a[0] == "const" else None for a in arg[2]] if arg[0] == "agg" and arg[1] == "array" else None
+                readers.append(("be" if be else "le", names))
+            elif not n.endswith(("::unwrap", "::expect", "::unwrap_unchecked", "convert::From::from", "convert::Into::into")):
+                return False, "tag value goes through %s" % n
+        elif x[0] == "const" and x[1] not in (CLASS, INSTR):
+            return False, "tag value mixes in the constant %s" % (x[1],)
+        elif x[0] in ("var", "path", "upvar"):
+            return False, "tag value depends on %s" % show(x)[:40]
+    if len(readers) != 1:
+        return False, "expected one two-byte read of [CLASS, INSTR], found %s" % (readers,)
+    order, names = readers[0]
+    if (order, names) not in (("be", [CLASS, INSTR]), ("le", [INSTR, CLASS])):
+        return False, "bytes %s read %s-endian" % (names, "big" if order == "be" else "little")
+    return True, ""
+
+
+def _tag_is_class_instr_old(b, tr, operand):
     v = tr.value(operand)
     if not (v.kind == "agg" and v.rv["n"] == "core::option::Option" and v.rv["vname"] == "Some"):
         return False, "tag is not Some(..)"
